@@ -1457,17 +1457,81 @@ fn run_find(inp: &[u8], id: &[u8]) -> String {
     format!("{} fres={} found={}", res, fres, found)
 }
 
+// ---------- per-case watchdog (C01: "never loops without consuming input") ----------
+// A case that does not come back within VERIF_CASE_TIMEOUT_MS (default 30 s; the slowest legitimate case, the
+// scripted >4 GiB cache, takes about 3 s) is reported as `<id> res=3 x_timeout=1`, everything produced so far is
+// flushed and the process exits with status 98; the driver restarts the shard after that case.
+static OUTBUF: std::sync::Mutex<Vec<u8>> = std::sync::Mutex::new(Vec::new());
+static CUR_ID: std::sync::Mutex<String> = std::sync::Mutex::new(String::new());
+static CUR_START_MS: std::sync::atomic::AtomicU64 = std::sync::atomic::AtomicU64::new(0);
+fn flush_locked(g: &mut Vec<u8>) {
+    let so = std::io::stdout();
+    let mut l = so.lock();
+    let _ = l.write_all(g);
+    let _ = l.flush();
+    g.clear();
+}
+struct SharedOut;
+impl Write for SharedOut {
+    fn write(&mut self, b: &[u8]) -> std::io::Result<usize> {
+        let mut g = OUTBUF.lock().unwrap_or_else(|e| e.into_inner());
+        g.extend_from_slice(b);
+        if g.len() > (1 << 16) {
+            flush_locked(&mut g);
+        }
+        Ok(b.len())
+    }
+    fn flush(&mut self) -> std::io::Result<()> {
+        let mut g = OUTBUF.lock().unwrap_or_else(|e| e.into_inner());
+        flush_locked(&mut g);
+        Ok(())
+    }
+}
+fn start_watchdog() {
+    let limit: u64 = std::env::var("VERIF_CASE_TIMEOUT_MS").ok().and_then(|v| v.parse().ok()).unwrap_or(30_000);
+    let t0 = std::time::Instant::now();
+    // the main thread stamps the start of a case with the watchdog's clock
+    CLOCK0.get_or_init(|| t0);
+    std::thread::spawn(move || loop {
+        std::thread::sleep(std::time::Duration::from_millis(200));
+        let st = CUR_START_MS.load(Ordering::Relaxed);
+        if st != 0 && (t0.elapsed().as_millis() as u64).saturating_sub(st) > limit {
+            let id = CUR_ID.lock().map(|g| g.clone()).unwrap_or_default();
+            let mut g = OUTBUF.lock().unwrap_or_else(|e| e.into_inner());
+            g.extend_from_slice(format!("{} res=3 x_timeout=1\n", id).as_bytes());
+            flush_locked(&mut g);
+            std::process::exit(98);
+        }
+    });
+}
+static CLOCK0: std::sync::OnceLock<std::time::Instant> = std::sync::OnceLock::new();
+fn case_begin(id: &str) {
+    if let Ok(mut g) = CUR_ID.lock() {
+        g.clear();
+        g.push_str(id);
+    }
+    let now = CLOCK0.get().map(|t| t.elapsed().as_millis() as u64).unwrap_or(0).max(1);
+    CUR_START_MS.store(now, Ordering::Relaxed);
+}
+fn case_end() {
+    CUR_START_MS.store(0, Ordering::Relaxed);
+}
+
 fn main() {
     std::panic::set_hook(Box::new(|_| {}));
+    start_watchdog();
     let stdin = std::io::stdin();
-    let stdout = std::io::stdout();
-    let mut out = std::io::BufWriter::new(stdout.lock());
+    let mut out = SharedOut;
     for line in stdin.lock().lines() {
         let line = line.unwrap();
         if line.is_empty() {
             continue;
         }
+        case_end();
         let f: Vec<&str> = line.split(' ').filter(|s| !s.is_empty()).collect();
+        if f.len() > 1 {
+            case_begin(f[1]);
+        }
         match f[0] {
             "P" => {
                 let id = f[1];
@@ -1525,5 +1589,6 @@ fn main() {
             _ => panic!("bad line"),
         }
     }
+    case_end();
     out.flush().unwrap();
 }
